@@ -86,19 +86,29 @@ def _battery(env, which, X, kw):
     Xf = env.quaternion.as_float_array(X)
     m, n = X.shape
     rs = np.random.RandomState(5)
-    for (M, N, rank, R, P) in [(4, 3, 1, 1, 0), (4, 3, 1, 2, 1), (3, 4, 2, 2, 0), (5, 4, 2, 2, 2), (4, 4, 4, 2, 1), (3, 5, 3, 1, 1)]:
+    for (M, N, rank, R, P) in [(4, 3, 1, 1, 0), (4, 3, 1, 2, 1), (3, 4, 2, 2, 0), (5, 4, 2, 2, 2), (4, 4, 4, 2, 1), (3, 5, 3, 1, 1), (8, 6, 2, 2, 0), (9, 7, 3, 3, 1)]:
         L = rs.randn(M, rank, 4)
         Rt = rs.randn(rank, N, 4)
-        L[:m, 0, :] += Xf[:, 0, :][:M]
+        if M >= 8:
+            # graded spectrum 1, 1e-3, 1e-6 on exactly orthogonal directions (a sketch narrower than the matrix): exactness for
+            # rank(A) <= R has to survive the power iterations in floating point (seeded change C12-e)
+            L[...] = 0.0
+            Rt[...] = 0.0
+            for r_ in range(rank):
+                L[r_, r_, 0] = 10.0 ** (-3 * r_)
+                Rt[r_, r_, 0] = 1.0
+                L[M - 1 - r_, r_, 1] = 10.0 ** (-3 * r_)
+        L[:m, 0, :] += Xf[:, 0, :][:M] * (1e-3 if M >= 8 else 1.0)
         B = ut.quat_matmat(env.quaternion.as_quat_array(L), env.quaternion.as_quat_array(Rt))
         if not np.all(np.isfinite(env.quaternion.as_float_array(B))):
             continue
-        np.random.seed(11)
-        U, s, V = f(B, R, oversample=P, **kw)
-        # orthonormality is only claimed when the sketch has full column rank (rank(A) >= R + P): for a rank-deficient sketch the
-        # basis LAPACK returns for the null directions need not be quaternion-structured (observed: pass_eff_qsvd, 4x3 rank 1, R=2, P=1)
-        _conc_clauses(env, B, U, s, V, R, exact_rank=rank, tag='[battery %dx%d rank %d R=%d P=%d] ' % (M, N, rank, R, P), orth=(rank >= R + P))
-
+        for kw2 in (kw, {}):        # the cell's step count and the routine's default (2 power iterations / 2 passes)
+            np.random.seed(11)
+            U, s, V = f(B, R, oversample=P, **kw2)
+            # orthonormality is only claimed when the sketch has full column rank (rank(A) >= R + P): for a rank-deficient sketch the
+            # basis LAPACK returns for the null directions need not be quaternion-structured (observed: pass_eff_qsvd, 4x3 rank 1, R=2, P=1)
+            _conc_clauses(env, B, U, s, V, R, exact_rank=rank, tag='[battery %dx%d rank %d R=%d P=%d %s] ' % (M, N, rank, R, P, kw2 or 'defaults'), orth=(rank >= R + P))
+    
 
 def sketch1(env, which, m, n, steps, kind='full', rank1=False, basis='unit', battery=False):
     """which = 'rand_qsvd' (steps = n_iter) or 'pass_eff_qsvd' (steps = n_passes >= 2), R = 1, oversample = 0"""
@@ -121,7 +131,9 @@ def sketch1(env, which, m, n, steps, kind='full', rank1=False, basis='unit', bat
     env.stub_linalg('svd', sstub)
     U, s, V = getattr(Qs, which)(env.twist(X), 1, oversample=0, **kw)
     want_qr = (2 + 2 * steps) if which == 'rand_qsvd' else steps
-    env.holds('number of QR factorisations and one SVD', qstate['calls'] == want_qr and sstate['calls'] == 1)
+    # how many factorisations are used is an implementation choice, not part of the property: recorded, not demanded
+    # (seeded change C12-e replaces the per-step re-orthonormalisation by one QR: exact in real arithmetic)
+    env.note('QR calls %d (documented algorithm: %d), SVD calls %d' % (qstate['calls'], want_qr, sstate['calls']))
     env.holds('shapes: U m x 1, V n x 1, one value', tuple(U.shape) == (m, 1) and tuple(V.shape) == (n, 1) and len(s) == 1)
     Un, Vn = cm.as_nested(env, U), cm.as_nested(env, V)
     s0 = s[0]
